@@ -1203,6 +1203,12 @@ func (sc *serverConn) handleHeaderFrame(strm *Stream, fr *FrameHeader) error {
 
 	var err error
 
+	// reject is the first reason the request is malformed. The rest of the
+	// block is still decoded, for its effect on the HPACK dynamic table: the
+	// next request on the connection may refer to an entry this one adds
+	// (RFC 7540 4.3).
+	var reject error
+
 	fieldsProcessed := 0
 
 	for len(b) > 0 {
@@ -1225,6 +1231,11 @@ func (sc *serverConn) handleHeaderFrame(strm *Stream, fr *FrameHeader) error {
 			break
 		}
 
+		if reject != nil {
+			fieldsProcessed++
+			continue
+		}
+
 		k, v := hf.KeyBytes(), hf.ValueBytes()
 
 		// RFC 7540 6.5.2 sizes a field as name + value + 32. The running total
@@ -1238,39 +1249,51 @@ func (sc *serverConn) handleHeaderFrame(strm *Stream, fr *FrameHeader) error {
 		// Header field names must not contain uppercase characters.
 		// https://httpwg.org/specs/rfc7540.html#rfc.section.8.1.2
 		if hasUpperCase(k) {
-			return NewResetStreamError(ProtocolError, "header field name contains uppercase characters")
+			reject = NewResetStreamError(ProtocolError, "header field name contains uppercase characters")
+			fieldsProcessed++
+			continue
 		}
 
 		if hf.IsPseudo() {
 			// All pseudo-header fields must appear before regular header fields.
 			// https://httpwg.org/specs/rfc7540.html#rfc.section.8.1.2.1
 			if strm.regularSeen {
-				return NewResetStreamError(ProtocolError, "pseudo-header field after regular header field")
+				reject = NewResetStreamError(ProtocolError, "pseudo-header field after regular header field")
+				fieldsProcessed++
+				continue
 			}
 
 			switch {
 			case bytes.Equal(k, StringMethod):
 				if strm.pseudoMethod {
-					return NewResetStreamError(ProtocolError, "duplicate :method pseudo-header")
+					reject = NewResetStreamError(ProtocolError, "duplicate :method pseudo-header")
+					fieldsProcessed++
+					continue
 				}
 				strm.pseudoMethod = true
 				req.Header.SetMethodBytes(v)
 			case bytes.Equal(k, StringPath):
 				if strm.pseudoPath {
-					return NewResetStreamError(ProtocolError, "duplicate :path pseudo-header")
+					reject = NewResetStreamError(ProtocolError, "duplicate :path pseudo-header")
+					fieldsProcessed++
+					continue
 				}
 				strm.pseudoPath = true
 				strm.path = append(strm.path[:0], v...)
 				req.Header.SetRequestURIBytes(v)
 			case bytes.Equal(k, StringScheme):
 				if strm.pseudoScheme {
-					return NewResetStreamError(ProtocolError, "duplicate :scheme pseudo-header")
+					reject = NewResetStreamError(ProtocolError, "duplicate :scheme pseudo-header")
+					fieldsProcessed++
+					continue
 				}
 				strm.pseudoScheme = true
 				strm.scheme = append(strm.scheme[:0], v...)
 			case bytes.Equal(k, StringAuthority):
 				if strm.pseudoAuthority {
-					return NewResetStreamError(ProtocolError, "duplicate :authority pseudo-header")
+					reject = NewResetStreamError(ProtocolError, "duplicate :authority pseudo-header")
+					fieldsProcessed++
+					continue
 				}
 				strm.pseudoAuthority = true
 				req.Header.SetHostBytes(v)
@@ -1278,7 +1301,9 @@ func (sc *serverConn) handleHeaderFrame(strm *Stream, fr *FrameHeader) error {
 			default:
 				// Any pseudo-header that is not a valid request pseudo-header
 				// (including response pseudo-headers such as :status) is invalid.
-				return NewResetStreamError(ProtocolError, fmt.Sprintf("invalid request pseudo-header %s", k))
+				reject = NewResetStreamError(ProtocolError, fmt.Sprintf("invalid request pseudo-header %s", k))
+				fieldsProcessed++
+				continue
 			}
 
 			fieldsProcessed++
@@ -1291,11 +1316,15 @@ func (sc *serverConn) handleHeaderFrame(strm *Stream, fr *FrameHeader) error {
 		// Connection-specific header fields are forbidden.
 		// https://httpwg.org/specs/rfc7540.html#rfc.section.8.1.2.2
 		if isConnectionSpecific(k) {
-			return NewResetStreamError(ProtocolError, "connection-specific header field")
+			reject = NewResetStreamError(ProtocolError, "connection-specific header field")
+			fieldsProcessed++
+			continue
 		}
 
 		if bytes.Equal(k, StringTE) && !bytes.Equal(v, StringTrailers) {
-			return NewResetStreamError(ProtocolError, "TE header field with a value other than trailers")
+			reject = NewResetStreamError(ProtocolError, "TE header field with a value other than trailers")
+			fieldsProcessed++
+			continue
 		}
 
 		switch {
@@ -1309,11 +1338,15 @@ func (sc *serverConn) handleHeaderFrame(strm *Stream, fr *FrameHeader) error {
 				// A content-length that is not a number cannot be checked
 				// against the body, so the request is malformed.
 				// https://httpwg.org/specs/rfc7540.html#rfc.section.8.1.2.6
-				return NewResetStreamError(ProtocolError, "invalid content-length")
+				reject = NewResetStreamError(ProtocolError, "invalid content-length")
+				fieldsProcessed++
+				continue
 			}
 
 			if sc.maxRequestBodySize > 0 && n > sc.maxRequestBodySize {
-				return NewResetStreamError(EnhanceYourCalm, "request body is too large")
+				reject = NewResetStreamError(EnhanceYourCalm, "request body is too large")
+				fieldsProcessed++
+				continue
 			}
 
 			strm.contentLength = n
@@ -1325,6 +1358,10 @@ func (sc *serverConn) handleHeaderFrame(strm *Stream, fr *FrameHeader) error {
 		}
 
 		fieldsProcessed++
+	}
+
+	if err == nil {
+		err = reject
 	}
 
 	return err
